@@ -1,6 +1,6 @@
 #!/bin/sh
 # Runs all 20 checks against each behaviour-preserving refactoring patch; any VIOLATION is a false alarm.
-S=/tmp/ref-scr
+S=${REF_SCR:-/tmp/ref-scr}
 git -C /repo worktree remove --force "$S" 2>/dev/null; rm -rf "$S"
 git -C /repo worktree add -q --detach "$S" HEAD || exit 2
 V="${TMPDIR:-/tmp}/shipverif-scratch"; mkdir -p "$V"; cp /verif/known_findings.json "$V/"
